@@ -72,14 +72,20 @@ def make_root(root, rnd):
     from common import pb, u, Time
     kind, contig = root["kind"], root["contig"]
     n = 48
-    shape = {"dp": (n, 2, 2), "bb": (n, 2), "st": (n, 2, 4), "in": (n, 3)}[kind]
+    shape = {"dp": (n, 2, 2), "bb": (n, 2), "st": (n, 2, 4), "in": (n, 3), "rd": (n, 2), "sg": (n, 3)}[kind]
     big = (2 * n,) + shape[1:]
     rs = np.random.default_rng(rnd.randrange(1 << 30))
     if kind in ("dp", "bb"):
         base = (rs.standard_normal(big) + 1j * rs.standard_normal(big)).astype(rnd.choice(["complex128", "complex64"]))
+    elif kind in ("rd", "sg"):
+        # classes without a dtype contract keep whatever they are given, e.g. non-native byte order
+        # straight from a file, integers, complex
+        base = (rs.standard_normal(big) * 50 + 1j * rs.standard_normal(big) * 50)
+        dt = rnd.choice([">c16", ">f8", "<f4", ">i4", "complex64", "int16"])
+        base = (base if "c" in dt else base.real).astype(dt)
     else:
         base = np.abs(rs.standard_normal(big)).astype(rnd.choice(["float64", "float32"])) + 1
-    if rnd.random() < 0.35:
+    if rnd.random() < 0.35 and base.dtype.kind in "fc":
         # non-finite samples are data like any other: nothing may "clean" the caller's buffer
         base[rnd.randrange(2 * n)] = np.nan
         base[rnd.randrange(2 * n)] = np.inf
@@ -87,12 +93,14 @@ def make_root(root, rnd):
     z = base[:n].copy() if contig else base[::2]
     kw = dict(sample_rate=1 * u.MHz, start_time=Time("2022-02-02T02:02:02", precision=9),
               center_freq=400 * u.MHz, meta=rnd.choice([{"a": [1, {"b": 2}]}, {}, None, {"x": 1}]))
-    if kind in ("st", "in"):
+    if kind in ("st", "in", "rd"):
         kw["chan_bw"] = 1 * u.MHz
     if kind == "dp":
-        kw["pol_type"] = "linear"
+        kw["pol_type"] = rnd.choice(["linear", "circular"])
+    if kind == "sg":
+        kw.pop("center_freq")
     cls = {"dp": pb.DualPolarizationSignal, "bb": pb.BasebandSignal, "st": pb.FullStokesSignal,
-           "in": pb.IntensitySignal}[kind]
+           "in": pb.IntensitySignal, "rd": pb.RadioSignal, "sg": pb.Signal}[kind]
     return cls(z, **kw)
 
 
